@@ -32,7 +32,7 @@ type tok struct {
 func lexSpec(src string) ([]tok, error) {
 	var out []tok
 	i := 0
-	ops := []string{"<==>", "==>", "::", "&&", "||", "==", "!=", "<=", ">=", "<<", ">>", "(", ")", "[", "]", "{", "}", ",", ":", "?", "<", ">", "+", "-", "*", "/", "%", "!", ".", "=", "#"}
+	ops := []string{"<==>", "==>", "::", "&&", "||", "==", "!=", "<=", ">=", "<<", ">>", "(", ")", "[", "]", "{", "}", ",", ":", "?", "<", ">", "+", "-", "*", "/", "%", "!", ".", "=", "#", "|"}
 	for i < len(src) {
 		c := src[i]
 		if c == ' ' || c == '\t' || c == '\n' {
@@ -362,6 +362,12 @@ func (p *sparser) primary() *SNode {
 					trig = append(trig, p.expr())
 					if p.isOp(",") {
 						p.next()
+						continue
+					}
+					// `|` starts an alternative trigger:  { f(x) | g(x), h(x) }
+					if p.isOp("|") {
+						p.next()
+						trig = append(trig, &SNode{Op: "trigsep"})
 						continue
 					}
 					break
